@@ -37,6 +37,7 @@ F=[
  ("F28","C13","check_maf takes the minor allele count","check_maf(threshold=1/6) on a variant with alternate frequency 5/6: min(f, 1-f) is computed as 0.16666666666666663 and the variant is reported / discarded although its MAF equals the threshold (found when ties at frequencies that are not exact in binary were added to the C13 generator)"),
  ("F29","C19","hold one name per line","--samples-file / --ids-file were read with str.splitlines(): a name holding one of its other separators (VT, FF, FS, GS, RS, U+0085, U+2028, U+2029), e.g. the VCF sample a<FF>b, is selected by --sample / --id but cut in two (so nothing is selected, silently) by the file form; found as the hypothesis the Lean round-trip proof needed"),
  ("F30","C19","reports and ignores requested IDs that are absent from the .hap","simphenotype with a .hap file and --id / --ids-file naming an ID the file does not hold (beside known ones): the run failed with the unrelated error 'The --repeats option must be specified when simulating a mix of both haplotypes and repeats' (absent IDs were counted as repeats) instead of reporting and ignoring the unknown ID; found when the vacuous simphenotype cases of C19/cli_vs_api (wrong genotype fixture: both entry points failed alike) were repaired"),
+ ("F31","C15","standardize scales each column by a power of two","Phenotypes.standardize(): a non-constant column of extreme magnitude (1e-200, 1e-300, subnormals, 1e+200 …, all inside the stated range) was zeroed because the squares of its deviations underflow or overflow; around 1e-160 the result had variance 0.99997 (the squares are subnormal). Noted on the clean tree by a round-9 sub-agent; reproduced by C15/table_operations once columns of extreme magnitude were generated"),
  ("F23","C04","aligns the breakpoints with the genotype","transform --ancestry with a .bp file listing the samples in another order than the genotype file: every sample gets another sample's local ancestry"),
 ]
 out=[dict(id=i,property=p,status="fixed",commit=sha(pat),what=w) for i,p,pat,w in F]
